@@ -16,3 +16,7 @@ Proof.
   revert i; induction l as [|x r IH]; intros i H; [reflexivity|].
   cbn in *. destruct (chk x); [eauto | discriminate].
 Qed.
+
+(* gives the list literal of a generated cases file the element type of the checker's domain, so that
+   terms such as [None] or [[]] in which no case fixes an implicit type argument still elaborate *)
+Definition cases_for {A} (chk : A -> bool) (l : list A) : list A := l.
